@@ -341,6 +341,11 @@ func buildEvidence(l *Loaded, spec *Spec, results []*JobResult, rp *Replayer, kn
 	for k, v := range spec.Extra {
 		cov[k] = v
 	}
+	// run.sh re-asks every obligation of the cheap unit-level checks with a second
+	// solver build in the thorough tier and passes the outcome here.
+	if c := os.Getenv("VERIF_CROSS"); c != "" {
+		cov["cross_solver"] = c
+	}
 	return map[string]interface{}{
 		"property_id": spec.Prop,
 		"tier":        spec.Tier,
